@@ -550,14 +550,18 @@ impl<'r, 'a> Collector<'r, 'a> {
                 die("unsupported", &format!("{}: bind= side condition: the iterated expression of loop {key} is not a plain variable, a field of one, or a method call on one whose arguments are plain variables", self.rw.fn_path));
             }
             let r = rng(e);
-            let et = match (&wrap, is_method(e, "iter")) {
-                // with wrap=: `B.iter()` -> `W(&(B))`
+            let keys_call = if wrap.as_deref() == Some("__map_key_refs") { is_method(e, "keys") } else { None };
+            let et = match (&wrap, is_method(e, "iter").or(keys_call)) {
+                // with wrap=: `B.iter()` -> `W(&(B))`; with wrap=__map_key_refs: `B.keys()` -> `__map_key_refs(&(B))`
                 (Some(_), Some(it)) if it.args.is_empty() => self.rw.text(&*it.receiver).to_string(),
                 _ => self.rw.text(e).to_string(),
             };
             let init = match &wrap { Some(w) => format!("{w}(&({et}))"), None => et.clone() };
             let w = wrap.clone().unwrap_or_else(|| "the iterated expression".to_string());
-            self.edits.push(Edit { range: fs..fs, text: format!("let {b} = {init}; let ghost {b}_g = {b}@;\n"), prio: -7 });
+            let vlen = self.rw.loops.iter().find(|l| l.key == key).map(|l| l.vlen).unwrap_or(false);
+            // vlen=1: the bound vector's length is a usize (a fact about every Vec, stated where the vector is still nameable)
+            let vl = if vlen { format!(" proof {{ assert({b}_g.len() == {b}.len()); }}") } else { String::new() };
+            self.edits.push(Edit { range: fs..fs, text: format!("let {b} = {init}; let ghost {b}_g = {b}@;{vl}\n"), prio: -7 });
             self.edits.push(Edit { range: r.clone(), text: b.clone(), prio: 0 });
             self.rw.log.push(format!("R8 loop {key}: iterate over {w}(..) bound to {b}"));
             if !iter.is_empty() {
@@ -691,7 +695,19 @@ impl<'ast, 'r, 'a> Visit<'ast> for Collector<'r, 'a> {
                 self.rw.log.push(format!("R30 let {name} = {m}.entry({k}).or_default() -> __entry_or_default; {name}.insert(..) -> __entry_insert"));
                 self.edits.push(Edit { range: rng(s), text: format!("__entry_or_default(&mut {m}, {k});"), prio: 0 });
             }
-            syn::Stmt::Local(l) if self.rw.on("R3") || self.rw.on("R16") || self.rw.on("R3f") || self.rw.on("R17") || self.rw.on("R26") || self.rw.on("R33") || self.rw.on("R3m") || self.rw.on("R44") || self.rw.on("R48") || self.rw.on("R48v") || self.rw.on("R60") => {
+            syn::Stmt::Local(l) if self.rw.on("R3") || self.rw.on("R69") || self.rw.on("R70") || self.rw.on("R16") || self.rw.on("R3f") || self.rw.on("R17") || self.rw.on("R26") || self.rw.on("R33") || self.rw.on("R3m") || self.rw.on("R44") || self.rw.on("R48") || self.rw.on("R48v") || self.rw.on("R60") => {
+                if self.rw.on("R69") {
+                    if let Some(t) = self.try_r69(l) {
+                        self.edits.push(Edit { range: rng(s), text: t, prio: 0 });
+                        return;
+                    }
+                }
+                if self.rw.on("R70") {
+                    if let Some(t) = self.try_r70(l) {
+                        self.edits.push(Edit { range: rng(s), text: t, prio: 0 });
+                        return;
+                    }
+                }
                 if self.rw.on("R16") {
                     if let Some(t) = self.try_r16(l) {
                         self.edits.push(Edit { range: rng(s), text: t, prio: 0 });
@@ -1992,6 +2008,93 @@ impl<'r, 'a> Collector<'r, 'a> {
         let body = self.render(&cl.body);
         self.rw.log.push(format!("R33 let {name} = M.keys() / S.iter() .filter(..).copied().collect() -> loop {key} over {refs_fn}"));
         Some(format!("let __keys_{name} = {refs_fn}(&{map}); let mut {name}: {vec_ty} = Vec::new(); for {pat} in {iter}__keys_{name}.iter() {hdr}{{ {bs}if {body} {{ {name}.push(**{pat}); }} {be}}}"))
+    }
+
+    fn loop_after_text(&mut self, key: &str) -> String {
+        let mut after = String::new();
+        for p in self.rw.proofs.iter_mut() {
+            if p.anchor == key && p.mode == "loopafter" {
+                p.used = true;
+                after.push_str(&format!("\nproof {{\n{}}}\n", p.text));
+            }
+        }
+        after
+    }
+
+    /// R69: `let [mut] x: UstrMap<T> = M.keys().map(|p| E).collect();`  (E a pair)
+    ///  -> `let __keys_x = __map_key_refs(&M); let ghost __keys_x_g = __keys_x@; let mut x: UstrMap<T> = UstrMap::default();
+    ///      for p in __keys_x { let __kv = E; x.insert(__kv.0, __kv.1); }`
+    /// (`FromIterator` of a hash map inserts the pairs one after the other; p has the type `&Ustr` in both forms)
+    fn try_r69(&mut self, l: &syn::Local) -> Option<String> {
+        let init = l.init.as_ref()?;
+        if init.diverge.is_some() {
+            return None;
+        }
+        let (name, ty) = self.local_name_ty(l)?;
+        let coll = is_method(&init.expr, "collect")?;
+        let mp = is_method(&coll.receiver, "map")?;
+        let keys = is_method(&mp.receiver, "keys")?;
+        let cl = match mp.args.get(0) {
+            Some(syn::Expr::Closure(c)) => c,
+            _ => return None,
+        };
+        let map_ty = ty?;
+        if !map_ty.replace(' ', "").starts_with("UstrMap<") {
+            return None;
+        }
+        if cl.capture.is_some() || cl.inputs.len() != 1 || !matches!(cl.inputs[0], syn::Pat::Ident(_)) || closure_has_control_flow(&cl.body) {
+            die("unsupported", &format!("{}: R69 side condition violated (move closure / pattern parameter / control flow in body)", self.rw.fn_path));
+        }
+        let key = self.rw.next_key("R69");
+        let (iter, hdr, bs, be) = self.rw.loop_parts(&key);
+        let after = self.loop_after_text(&key);
+        let pat = self.rw.text(&cl.inputs[0]).to_string();
+        let map = self.render(&keys.receiver);
+        let body = self.render(&cl.body);
+        self.rw.log.push(format!("R69 let {name}: UstrMap<_> = M.keys().map(..).collect() -> loop {key} over __map_key_refs, one insert per key"));
+        Some(format!("let __keys_{name} = __map_key_refs(&{map}); let ghost __keys_{name}_g = __keys_{name}@; let mut {name}: {map_ty} = UstrMap::default(); for {pat} in {iter}__keys_{name} {hdr}{{ {bs}let __kv = {body}; {name}.insert(__kv.0, __kv.1); {be}}}{after}"))
+    }
+
+    /// R70: `let x: UstrSet = M.into_iter().filter(|P1| B1).map(|P2| E2).collect();`  (M a UstrMap taken by value)
+    ///  -> `let __es_x = __map_into_entries(M); let ghost __es_x_g = __es_x@; let mut x: UstrSet = UstrSet::default();
+    ///      for __e in __es_x { if { let P1 = &__e; B1 } { let P2 = __e; x.insert(E2); } }`
+    /// (`filter` hands its closure a reference to the item, `map` the item itself)
+    fn try_r70(&mut self, l: &syn::Local) -> Option<String> {
+        let init = l.init.as_ref()?;
+        if init.diverge.is_some() {
+            return None;
+        }
+        let (name, ty) = self.local_name_ty(l)?;
+        let coll = is_method(&init.expr, "collect")?;
+        let mp = is_method(&coll.receiver, "map")?;
+        let flt = is_method(&mp.receiver, "filter")?;
+        let ii = is_method(&flt.receiver, "into_iter")?;
+        let (c1, c2) = match (flt.args.get(0), mp.args.get(0)) {
+            (Some(syn::Expr::Closure(a)), Some(syn::Expr::Closure(b))) => (a, b),
+            _ => return None,
+        };
+        let set_ty = ty?;
+        if set_ty.replace(' ', "") != "UstrSet" {
+            return None;
+        }
+        if !matches!(&*ii.receiver, syn::Expr::Path(_)) {
+            die("unsupported", &format!("{}: R70 side condition: the map consumed by into_iter() is not a plain variable", self.rw.fn_path));
+        }
+        for cl in [c1, c2] {
+            if cl.capture.is_some() || cl.inputs.len() != 1 || closure_has_control_flow(&cl.body) {
+                die("unsupported", &format!("{}: R70 side condition violated (move closure / several params / control flow in body)", self.rw.fn_path));
+            }
+        }
+        let key = self.rw.next_key("R70");
+        let (iter, hdr, bs, be) = self.rw.loop_parts(&key);
+        let after = self.loop_after_text(&key);
+        let p1 = self.rw.text(&c1.inputs[0]).to_string();
+        let p2 = self.rw.text(&c2.inputs[0]).to_string();
+        let map = self.render(&ii.receiver);
+        let b1 = self.render(&c1.body);
+        let e2 = self.render(&c2.body);
+        self.rw.log.push(format!("R70 let {name}: UstrSet = M.into_iter().filter(..).map(..).collect() -> loop {key} over __map_into_entries, one insert per kept entry"));
+        Some(format!("let __es_{name} = __map_into_entries({map}); let ghost __es_{name}_g = __es_{name}@; let mut {name}: {set_ty} = UstrSet::default(); for __e in {iter}__es_{name} {hdr}{{ {bs}if {{ let {p1} = &__e; {b1} }} {{ let {p2} = __e; {name}.insert({e2}); }} {be}}}{after}"))
     }
 
     /// R3f: `let x: Vec<T> = ITER.filter(CL).cloned().collect();`
